@@ -137,6 +137,10 @@ def contracts(interp):
             groups.setdefault((name, tuple(x.get_id() for x in operands)), []).append((idx, t, operands))
     for (name, _), items in groups.items():
         items.sort(key=lambda it: it[0])
+        # the same application may be recorded several times (the code draws twice with the same key and arguments):
+        # it is ONE draw (UF congruence) -- listing its terms twice would make Distinct(...) below unsatisfiable
+        seen_ids = set()
+        items = [x for x in items if not (x[1].get_id() in seen_ids or seen_ids.add(x[1].get_id()))]
         ts = [t for _, t, _ in items]
         operands = items[0][2]
         if name == "RAND_randint":
